@@ -120,7 +120,7 @@ def rule_kind(repo, tier):
     for cname in ('FastTriggs', 'Triggs'):
         f = repo.func(COR, cname + '.forward')
         R = TV([Bt, sym('d')])
-        J = TV([sym('Nd'), sym('k')])
+        J = TV([sym('prod(B*d)'), sym('k')])       # documented: the rows of J are the residual entries, residual-major
         reports = []
         it = Interp(repo, lambda node, msg: reports.append((node, msg)))
         stores = []
@@ -137,6 +137,12 @@ def rule_kind(repo, tier):
             el = ret_elts(f.node, r)
             if el is not None and len(el) == 2:
                 ret_names.append([_root_name(x) for x in el])
+        seen_rep = set()
+        for node, msg in reports:
+            if msg not in seen_rep:
+                seen_rep.add(msg)
+                res.add(Finding('C09.KIND', f, msg, node=node if isinstance(node, ast.AST) and hasattr(node, 'lineno') else None,
+                                construct='flatten order ' + msg[-60:]))
         for rv in rets:
             ok_r = ok_j = None
             if hasattr(rv, 'items') and len(rv.items) == 2:
